@@ -79,6 +79,48 @@ def tls_hello_sized(sni, sizes, extra_ext=b""):
 
 
 TINY_SPLITS = [[1], [2], [3], [4], [5], [1] * 8, [1, 1], [3, 1], [1, 2, 1], [2, 2]]
+MAX_RECORD = 2 ** 14          # TLSPlaintext.length / DTLSPlaintext.length may be exactly 2^14 (RFC 8446 §5.1, RFC 6347 §4.1)
+
+
+def padding_ext(n):
+    """a padding extension (type 21, RFC 7685) occupying n >= 4 bytes"""
+    return b"\x00\x15" + (n - 4).to_bytes(2, "big") + bytes(n - 4)
+
+
+def tls_hello_payload(sni, payload_len, dtls=False):
+    """a ClientHello whose handshake message (= the payload of a single record) is exactly payload_len bytes long"""
+    base = len(tls_hello(sni, dtls=dtls, extra_ext=padding_ext(4))) - (13 if dtls else 5)
+    return tls_hello(sni, dtls=dtls, extra_ext=padding_ext(4 + payload_len - base))
+
+
+def tls_resplit(hello, sizes):
+    """the handshake bytes of a single-record TLS hello cut into records with payload sizes `sizes` + the rest"""
+    hs = hello[5:]
+    out, pos, first = b"", 0, True
+    for n in list(sizes) + [len(hs)]:
+        part = hs[pos:pos + n]
+        if not part: break
+        out += b"\x16\x03" + (b"\x01" if first else b"\x03") + len(part).to_bytes(2, "big") + part
+        pos += len(part); first = False
+    return out
+
+
+def boundary_hellos(sni):
+    """(label, bytes, dtls) at the record-size boundary: single records of 2^14-1 and 2^14 bytes, hellos longer than one
+    maximal record, first records of 1..4 / 2^14-1 / 2^14 bytes"""
+    out = []
+    for n in (MAX_RECORD - 1, MAX_RECORD):
+        out.append((f"tls single record {n}", tls_hello_payload(sni, n), False))
+        out.append((f"dtls single record {n}", tls_hello_payload(sni, n, dtls=True), True))
+    big = tls_hello_payload(sni, MAX_RECORD + 300)          # only legal when fragmented
+    for first in (1, 2, 3, 4, MAX_RECORD - 1, MAX_RECORD):
+        out.append((f"tls {MAX_RECORD + 300} bytes, first record {first}", tls_resplit(big, [first] if first > 4 else [first, MAX_RECORD]), False))
+    whole = tls_hello_payload(sni, MAX_RECORD)
+    for first in (1, 4):
+        out.append((f"tls {MAX_RECORD} bytes, first record {first}", tls_resplit(whole, [first]), False))
+    out.append((f"tls 2x{MAX_RECORD}", tls_resplit(tls_hello_payload(sni, 2 * MAX_RECORD), [MAX_RECORD]), False))
+    return out
+
 
 
 CCS = bytes.fromhex("140303000101")                                  # TLS 1.3 middlebox-compatibility ChangeCipherSpec
@@ -439,6 +481,12 @@ class Check(PropertyCheck):
                 d = tls_hello(sni, dtls=(k == "dtls"), extra_ext=rng.pick([b"", b"\x00\x10\x00\x05\x00\x03\x02h2"]))
             ok = sni is not None and netcheck.is_valid_host(sni.encode())
             return d, {"host": None, "sni": sni if ok else None}
+        if k == "tls" and tcp and rng.chance(0.04):
+            sni = rng.pick(self.HOSTS[:4])
+            n = rng.pick([MAX_RECORD - 1, MAX_RECORD, MAX_RECORD - rng.randint(2, 40)])
+            d = tls_hello_payload(sni, n)
+            if rng.chance(0.5): d = tls_resplit(d, [rng.pick([1, 2, 3, 4, 100, n - 1])])
+            return d, {"host": None, "sni": sni}
         if k in ("tlsplus", "dtlsplus"):
             # a complete ClientHello (1..n records) FOLLOWED by other records / bytes already in the first flight
             sni = rng.pick(self.HOSTS[:5] + [None, "a.example"])
@@ -571,6 +619,14 @@ class Check(PropertyCheck):
         short = [(b"GET / HTTP/1.1\r\nHost:example.com\r\n\r\n", "spec"), (tls_hello("example.com"), {"host": None, "sni": "example.com"}),
                  (tls_hello("example.com") + CCS + EARLY_DATA, {"host": None, "sni": "example.com"}),
                  (tls_hello_records("example.com", 3) + CCS, {"host": None, "sni": "example.com"})]
+        # the record-size boundary (2^14): unit level under SNI-only rules, a few end to end / through ClientTLSLayer
+        for i, (label, d, dtls) in enumerate(boundary_hellos("example.com")):
+            for rules in ({"ignore": [{"s": 0, "e": 0, "lit": "example.com"}], "allow": []}, {"ignore": [], "allow": [{"s": 0, "e": 0, "lit": "example.com"}]}):
+                yield {"kind": "ig", "cfg": dict(rules, tcp=int(not dtls), wg=0, peer=None, addr=["192.0.2.1", 443], csni=None), "dc_hex": hx(d), "ds_hex": "-",
+                       "intent": {"sni": "example.com"}, "note": label}
+            if not dtls and (tier == "thorough" or i % 4 == 0):
+                yield self.e2e_case(rng, cuts=rng.pick([5, 9, MAX_RECORD + 5, len(d) - 1]), base=(d, {"host": None, "sni": "example.com"}))
+                yield {"kind": "tlsig", "dtls": 0, "flight": [hx(x) for x in rng.split(d, 3)], "after": [hx(b"zz")], "complete": 1}
         # unit level: ClientHello fragmented into tiny records (first record 1..5 handshake bytes, one byte per record, ...)
         for sizes in TINY_SPLITS:
             for tr in (b"", CCS):
